@@ -710,9 +710,12 @@ class Driver:
         excmsg = ""
         res = None
         pend = None
+        none_rc = None
         try:
             try:
+                rc0 = sys.getrefcount(None)
                 res = invoke(pyargs, pykw)
+                none_rc = sys.getrefcount(None) - rc0
             except Exception as ex:      # noqa: any exception type is data here
                 exc = type(ex).__name__
                 excmsg = str(ex)[:200]
@@ -746,6 +749,9 @@ class Driver:
         kindsig = g["kind"] + ("-static" if fns[0].get("static") else "")
         argcats = ",".join([a.cat() for a in args] + [k_ + "=" + a.cat() for k_, a in sorted(kw.items())]) if not kw else \
             ",".join([a.cat() for a in args] + ["kw=" + a.cat() for _, a in sorted(kw.items())])
+        if none_rc is not None and exc is None and none_rc < (1 if res is None else 0):
+            # a wrapper handed out None (or dropped one) without owning the reference
+            self.bad(f"refcount:none-reference-lost:kind={kindsig}", call=callsig, delta=none_rc)
         if pend and exc is None:
             why = "args=" + argcats
             for f_, st_, sl_ in sts:
